@@ -398,9 +398,31 @@ def enum_two_instance_cases():
     return cases
 
 
+def enum_fullbuf_cases():
+    """Enumerated (every run): one read fills the whole 64 KiB buffer (64 records of 1 KiB), or stops just short of it, and a handler
+    unregisters the watch / the instance at the first, a middle or the last record; whatever the library does after the walk (e.g. decide
+    whether to read again) must not touch an instance a handler has unregistered; the following read is delivered normally."""
+    cases = []
+    for total_last in (1008, 752, 736, 16):          # last record's name length: batch = 65536 / 65280 / 65264 / 64544 bytes
+        recs = ["5:2:0:1008:z"] * 63 + [f"5:2:0:{total_last}:z"]
+        for where in (0, 31, 63, None):
+            for act in ("uninst 0", "unwatch 0", "uninst 0 keep"):
+                ops = ["inst 0 junk ok", "inst 1 zero ok", "watch 0 0 fff 5", "watch 1 1 fff 6"]
+                if where is not None:
+                    ops.append(f"react 0 {where} {act}")
+                elif act != "uninst 0":
+                    continue
+                ops.append("event 0 d " + " ".join(recs))
+                ops.append("event 1 d 6:2:0:0:z")
+                ops.append("event 0 d 5:4:0:0:z")
+                cases.append((f"fullbuf-{total_last}-{where}-{act.replace(' ', '_')}", ops))
+    return cases
+
+
 def gen_cases(tier, seed):
     yield from enum_removed_cases()
     yield from enum_two_instance_cases()
+    yield from enum_fullbuf_cases()
     rng = random.Random(seed * 130003 + 20)
     for i in range(400 if tier == "quick" else 6000):
         if i % 20 == 19:
@@ -489,7 +511,7 @@ def run(tier, seed, proof):
                 "re-registering the same structure), register new or dropped watches, release dropped watches, register instances. Plus two ENUMERATED families "
                 "(every run): 'removed' (the kernel already dropped a watch that a handler then unregisters/frees/re-registers) and 'twoinst' (30 cases: an "
                 "instance whose last dispatch ended with an empty / non-empty watch set is unregistered later from a handler of ANOTHER instance in the middle "
-                "of that instance's batch, or at top level; the rest of the batch and later reads must still be delivered). One case in 20 "
+                "of that instance's batch, or at top level; the rest of the batch and later reads must still be delivered) and 'fullbuf' (40 cases: one read fills the 64 KiB buffer or stops just short of it while a handler unregisters the watch or the instance at the first / a middle / the last record). One case in 20 "
                 "runs against the real kernel (private directory tree, events made by creating/deleting files and removing directories). Plus a THREADS part: the "
                 "ThreadSanitizer program tsan_inotify (one instance per loop thread, concurrent bursts; 2 runs quick / 8 thorough), any data race in iv_inotify.c "
                 "is a violation (instances of different threads must share nothing). Every structure is "
